@@ -44,7 +44,8 @@ def heap0_cells():
                                  [s('seven'), f('seven')]]},
         {'cls': 'list', 'items': [i(1), i(2), r(3)]},
         {'cls': 'dict', 'items': [[s('k'), i(5)], [s('o'), r(1)], [i(0), s('uv')]]},
-        {'cls': 'tuple', 'items': [i(4), r(2)]}]
+        {'cls': 'tuple', 'items': [i(4), r(2)]},
+        {'cls': 'cobj', 'items': [[s('none'), {'k': 'none'}], [s('n'), i(3)], [s('l'), r(2)]]}]
 
 
 def observe(heap, root, spec):
@@ -239,7 +240,7 @@ def record(check, n, seed):
     rng = random.Random(seed)
     cells = heap0_cells()
     roots = [{'k': 'ref', 'a': 1}, {'k': 'ref', 'a': 1}, {'k': 'ref', 'a': 2}, {'k': 'ref', 'a': 3},
-             {'k': 'ref', 'a': 4}, {'k': 'int', 'i': 6}, {'k': 'int', 'i': -3}, {'k': 'str', 's': 's'}, {'k': 'none'}]
+             {'k': 'ref', 'a': 4}, {'k': 'ref', 'a': 5}, {'k': 'int', 'i': 6}, {'k': 'int', 'i': -3}, {'k': 'str', 's': 's'}, {'k': 'none'}]
     rows = []
     for _ in range(n):
         ops = rand_ops(rng, cells)
